@@ -22,33 +22,7 @@
 (* must refute.  Field values are abstracted: a field that lexes is "some   *)
 (* value the range check accepts", which is enough for index safety.        *)
 (***************************************************************************)
-EXTENDS Integers, Sequences, FiniteSets, TLC
-
-(* classes: d ASCII digit; the delimiters - : . T Z + and blank; x an ASCII letter; e2 a two-byte      *)
-(* letter (e acute); n2 a two-byte character that is_numeric but is not an ASCII digit (Arabic-Indic   *)
-(* three); e3 a three-byte symbol (euro sign); e4 a four-byte symbol (musical clef)                    *)
-Classes == {"d", "-", ":", ".", "T", "Z", "+", " ", "x", "e2", "n2", "e3", "e4"}
-Bytes(c) == CASE c = "e2" -> 2 [] c = "n2" -> 2 [] c = "e3" -> 3 [] c = "e4" -> 4 [] OTHER -> 1
-Numeric(c) == c \in {"d", "n2"}
-AsciiDigit(c) == c = "d"
-
-RECURSIVE TotalBytes(_)
-TotalBytes(s) == IF s = <<>> THEN 0 ELSE Bytes(Head(s)) + TotalBytes(Tail(s))
-(* byte offsets that are character boundaries of s *)
-RECURSIVE BoundariesFrom(_, _, _)
-BoundariesFrom(s, i, off) == IF i > Len(s) THEN {off} ELSE {off} \cup BoundariesFrom(s, i + 1, off + Bytes(s[i]))
-Boundaries(s) == BoundariesFrom(s, 1, 0)
-(* the characters of s between two boundaries *)
-RECURSIVE CharsBetween(_, _, _, _, _)
-CharsBetween(s, i, off, a, b) ==
-  IF i > Len(s) \/ off >= b THEN <<>>
-  ELSE (IF off >= a THEN <<s[i]>> ELSE <<>>) \o CharsBetween(s, i + 1, off + Bytes(s[i]), a, b)
-
-RECURSIVE TrimL(_)
-TrimL(s) == IF s # <<>> /\ Head(s) = " " THEN TrimL(Tail(s)) ELSE s
-RECURSIVE TrimR(_)
-TrimR(s) == IF s # <<>> /\ s[Len(s)] = " " THEN TrimR(SubSeq(s, 1, Len(s) - 1)) ELSE s
-Trim(s) == TrimR(TrimL(s))
+EXTENDS TokClasses
 
 (* Token::advance_with: the next token, or "ERR" *)
 Advance(tok, c) ==
@@ -65,8 +39,6 @@ Advance(tok, c) ==
     [] OTHER -> "ERR"
 HasGregPos(tok) == tok \in {"Year", "Month", "Day", "Hour", "Minute", "Second", "Subsecond", "OffsetHours", "OffsetMinutes"}
 
-(* a slice s[a..b]: a panic unless a <= b <= len and both on boundaries *)
-SliceOK(s, a, b) == a <= b /\ b <= TotalBytes(s) /\ a \in Boundaries(s) /\ b \in Boundaries(s)
 Lexes(sub) == sub # <<>> /\ Len(sub) <= 9 /\ \A k \in 1..Len(sub) : AsciiDigit(sub[k])     \* (ten digits may overflow an i32: an error)
 
 (* ---------------------------------------------------------------- the tokenizer as it is now *)
@@ -127,12 +99,6 @@ Skeletons == {
   Date \o <<"T">> \o Time \o <<"+", D, D, ":", D, D>>,                         \* offset
   Date \o <<"T">> \o Time \o <<".", D>> \o <<"-", D, D, ":", D, D, " ", "x", "x", "x">>,
   <<D, "-", D, "-", D, "T", D, ":", D, ":", D>> }                              \* minimal
-
-Subst(s, i, c) == [s EXCEPT ![i] = c]
-Insert(s, i, c) == SubSeq(s, 1, i - 1) \o <<c>> \o SubSeq(s, i, Len(s))          \* before position i (i = Len+1: append)
-Delete(s, i)   == SubSeq(s, 1, i - 1) \o SubSeq(s, i + 1, Len(s))
-Edits(s) == {Subst(s, i, c) : i \in 1..Len(s), c \in Classes} \cup {Insert(s, i, c) : i \in 1..(Len(s) + 1), c \in Classes}
-            \cup {Delete(s, i) : i \in 1..Len(s)} \cup {SubSeq(s, 1, i) : i \in 0..Len(s)}
 
 CONSTANT MaxEdits, ShortLen
 VARIABLES s, k
